@@ -306,3 +306,18 @@ Definition known_multiline (s e : cloc) : bool := negb (c_line s =? c_line e).
 
 (** the text a token covers *)
 Definition slice (input : list N) (s e : N) : list N := firstn (N.to_nat (e - s)) (skipn (N.to_nat s) input).
+
+(* ------------------------------------------------------------------ IMPL: syntax error line of write_trace *)
+(** CompactFormat::write_trace, `ErrorKind::ImportSyntaxError` branch: clamp an offset at or
+    beyond the end to the last byte, map it, add 1 to the column when clamped, print. *)
+Definition syntax_error_print (v : version) (file : list N) (offset : N) : N * N * option (option N * N) :=
+  let len := blen file in
+  let is_eof := len <=? offset in
+  let off := if is_eof then len - 1 else offset in
+  match offset_to_location v file [off] with
+  | l :: _ =>
+      let l' := if is_eof then mkloc (c_off l) (c_line l) (c_col l + 1) (c_ls l) (c_le l) else l in
+      print_loc l' l'
+  | [] => (0, 0, None)
+  end.
+Definition full (c : cloc) : N * N * N * N * N := (c_off c, c_line c, c_col c, c_ls c, c_le c).
